@@ -12,7 +12,7 @@ RULE = ("configurations = subsets of (kind, name) descriptor registrations over 
         "vs REFERENCE), random subsets; in each, a battery of parsed ASTs containing every kind and registered/unregistered names is described "
         "before any registration, after each batch, and after re-registration with new ids. distinct class = (descriptor key, registered | default)")
 KINDS = ["UNARY", "BINARY", "POSTFIX", "TERNARY", "FUNCTION", "REFERENCE", "LIST", "MAP", "CHAIN"]
-NAMES = {"UNARY": ["-", "!", "not", "AND", "++"], "BINARY": ["+", "-", "*", "==", "in", "=", "&&"], "POSTFIX": ["++", "--", "!"], "FUNCTION": ["f", "g", "x", "min", "rateBB", "ärea"], "REFERENCE": ["x", "y", "f", "min", "tierBB", "é", "ünit.price"]}
+NAMES = {"UNARY": ["-", "!", "not", "AND", "++", "neg2"], "BINARY": ["+", "-", "*", "==", "in", "=", "&&", "<+>"], "POSTFIX": ["++", "--", "!", "pct2"], "FUNCTION": ["f", "g", "x", "min", "rateBB", "ärea"], "REFERENCE": ["x", "y", "f", "min", "tierBB", "é", "ünit.price"]}
 BATTERY = [
     "- x + y * 2", "! a && not b", "x ++ - y --", "c ? x : y", "f(x, 1) + g() + min(2, 3)", "[x, y, [1]]", "{x: 1, 2: y}", "x = 1; y = x + 1; f(y)", "AND [a, b] || x in [1, 2]",
     "- (x - y) - - z", "x == y ? f(x) : [g(x)]", "x", "f()", "[]", "{}", "1 + 2", "true", "x not in y", "(c ? 1 : 2) ? x : - y", "f(g(x), {1: [y]})", "a; b", "x = y = 3",
@@ -27,6 +27,8 @@ BATTERY = [
     "a - b + c - d", "a + b - c + d", "(a * b - c) * d", "a - b - c + d - e + f", "a == b != c == d", "a = b += c = d", "a && b || c && d || e", "x - (y + (z - w))", "f(a) - g(b) + f(c) - g(d)",
     # prefix / postfix operators applied directly to literals of every kind
     "- 10 * x > - y", "x * - 10", "+ 5", "- 0.5 - - 0.5", "! true", "not false", "- 'a'", "7 ++", "[- 1, + 2, ! false]", "f(- 3)", "- 1 ? - 2 : - 3",
+    # operators that are registered only AFTER the first batch of descriptors (a descriptor may be filed before its operator exists)
+    "neg2 x + y", "x pct2 * 2", "x <+> y - neg2 z", "f(x <+> 1) pct2", "neg2 (x <+> y) pct2",
     # deep trees: descriptors apply at every depth
     "x" + " + 1" * 140, "[" * 130 + "x" + "]" * 130, "- " * 135 + "x", "f(" * 132 + "x" + ")" * 132, "x" + " ++" * 1 + " + y" * 129,
 ]
@@ -54,6 +56,11 @@ def config_steps(rnd, spec):
     table = ref.OpTable()
     table.postfix.add("!")
     table.prefix.add("++")
+    table.prefix.add("neg2")
+    table.postfix.add("pct2")
+    table.infix["<+>"] = (105, "LEFT", "CALC")
+    late = [{"op": "reg_prefix", "name": "neg2", "beh": {"id": 3, "ret": "arg0"}}, {"op": "reg_postfix", "name": "pct2", "beh": {"id": 4, "ret": "arg0"}},
+            {"op": "reg_infix", "name": "<+>", "prec": 105, "type": "CALC", "assoc": "LEFT", "beh": {"id": 5, "ret": "arg0"}}]
     pre = [{"op": "reg_postfix", "name": "!", "beh": {"id": 1, "ret": "arg0"}}, {"op": "reg_prefix", "name": "++", "beh": {"id": 2, "ret": "arg0"}}]
     bat = parse_battery(table)
     steps = list(pre)
@@ -77,6 +84,10 @@ def config_steps(rnd, spec):
             steps.append({"op": "desc", "kind": kind, "name": name or "", "id": nid})
             plan.append(None)
             reg[(kind, name) if name is not None else (kind,)] = nid
+        if late:
+            steps.extend(late)
+            plan.extend([None] * len(late))
+            late = []
         describe_all()
     return steps, plan
 
